@@ -1266,10 +1266,11 @@ func genConc(prop string, seed uint64, g *gen, thorough bool) *Case {
 		c.Knobs.NoWriteMerge = false
 		g.wb = c.Knobs.WriteBuffer
 	}
-	if r.p(0.4) {
-		// slow nodes: one or two clients are scheduled only rarely
+	if r.p(0.4) || prop == "C20" && r.p(0.6) {
+		// slow nodes: one or two clients are scheduled only rarely (e.g. a
+		// merged writer that is late to collect its acknowledgement)
 		c.Slow = append(c.Slow, r.intn(nc))
-		if r.p(0.3) {
+		if r.p(0.3) || prop == "C20" && r.p(0.5) {
 			c.Slow = append(c.Slow, r.intn(nc))
 		}
 	}
